@@ -57,16 +57,41 @@ func Run(t *testing.T, tape *Tape, keepLog bool, body func(s *Sim, res *Result))
 			// otherwise: synctest's "blocked goroutines remain" at the end of the bubble
 		}
 	}()
-	synctest.Test(t, func(t *testing.T) {
-		s := newSim(tape)
-		s.tasks, s.parked, s.events = bufTasks[:0], bufParked[:0], bufEvents[:0]
-		s.KeepLog = keepLog
-		body(s, &res)
-		s.quiesce()
-		s.fill(&res)
-		cur = nil
-		finished = true
-	})
+	bubble := func() {
+		synctest.Test(t, func(t *testing.T) {
+			s := newSim(tape)
+			s.tasks, s.parked, s.events = bufTasks[:0], bufParked[:0], bufEvents[:0]
+			s.KeepLog = keepLog
+			body(s, &res)
+			s.quiesce()
+			s.fill(&res)
+			cur = nil
+			finished = true
+		})
+	}
+	if !RaceBuild {
+		bubble()
+		return res
+	}
+	// -race builds: the testing package fails a bubble during which the race detector
+	// reported something and synctest.Test then calls t.FailNow (runtime.Goexit) on the
+	// calling goroutine. Race reports are results here (racelog.go), not test failures: run
+	// the bubble on a helper goroutine so that only the helper is unwound and the worker
+	// loop goes on.
+	done := make(chan struct{})
+	go func() {
+		defer close(done)
+		defer func() {
+			if r := recover(); r != nil {
+				cur = nil
+				if !finished {
+					res.HarnessErr = fmt.Sprintf("controller panic: %v\n%s", r, stackHere())
+				}
+			}
+		}()
+		bubble()
+	}()
+	<-done
 	return res
 }
 
